@@ -26,65 +26,51 @@ def pert_funcs(ctx):
     return [g for g in ctx.eff.reachable([top], precise=True) if g.cls == WORKFLOW and g is not top]
 
 
-def stale_accumulators(ctx):
-    """-> list of (func, attr, loc, ok, message)."""
-    out = []
-    for g in pert_funcs(ctx):
-        body = g.body()
-        pm = parent_map(g.node)
-        # local aliases  v = X.attr
-        alias = {}
-        for n in ast.walk(g.node):
-            if isinstance(n, ast.Assign) and len(n.targets) == 1 and isinstance(n.targets[0], ast.Name) and isinstance(n.value, ast.Attribute) \
-                    and isinstance(n.value.value, ast.Name):
-                alias.setdefault(n.targets[0].id, set()).add((n.value.value.id, n.value.attr))
-        accs = {}
-        for n in ast.walk(g.node):
-            if not isinstance(n, ast.If):
-                continue
-            reads = set()
-            for x in ast.walk(n.test):
-                if isinstance(x, ast.Attribute) and isinstance(x.value, ast.Name):
-                    reads.add((x.value.id, x.attr))
-                if isinstance(x, ast.Name) and x.id in alias:
-                    reads |= alias[x.id]
-            for st in n.body:
-                for a in ast.walk(st):
-                    if isinstance(a, ast.Assign):
-                        for t in a.targets:
-                            if isinstance(t, ast.Attribute) and isinstance(t.value, ast.Name) and (t.value.id, t.attr) in reads and t.attr in PERT_ATTRS:
-                                accs.setdefault(t.attr, n)
-        for attr, ifnode in accs.items():
-            # top-level statement containing the accumulator
-            top = ifnode
-            while pm.get(id(top)) is not g.node:
-                top = pm[id(top)]
-            idx = body.index(top)
-            ok = False
-            for s in body[:idx]:
-                if isinstance(s, ast.For) and isinstance(s.target, ast.Name) and isinstance(s.iter, ast.Attribute) and ast.unparse(s.iter) == "self.task_list":
-                    for st in s.body:  # unconditional stores only
-                        if isinstance(st, ast.Assign):
-                            for t in st.targets:
-                                if isinstance(t, ast.Attribute) and isinstance(t.value, ast.Name) and t.value.id == s.target.id and t.attr == attr:
-                                    ok = True
-            msg = (f"{g.name}: `{attr}` is read, compared and conditionally overwritten (a relaxation accumulator) but it is not stored for every task earlier in the "
-                   f"same call: at a later update the comparison runs against the value of the previous call, so e.g. a critical path that grew is never propagated "
-                   f"(negative slack)")
-            out.append((g, attr, g.loc(ifnode), ok, msg))
-    return out
+def prior_dependence(ctx):
+    """Every PERT value is recomputed from the network in every call: with *arbitrary* values left in est/eft/lst/lft/critical
+    path length by an earlier call (symbols without bounds), one update of an FS chain must still end with values that do not
+    mention them -- a relaxation (`if new < t.lst: t.lst = new`) that is not re-initialised first keeps the old symbol on some
+    path.  -> (func, [(instance, cells)], [(key, message)])"""
+    f = ctx.repo.method(WORKFLOW, "update_PERT_data")
+    insts, bad = [], []
+    for n in (2, 3):
+        try:
+            tasks, res = chain_run(ctx, n, False, symbolic_prior=True)
+        except AnalysisError as e:
+            if "path explosion" not in str(e) and "max_paths" not in str(e):
+                raise
+            insts.append((f"chain{n}-arbitrary-prior", 1))
+            bad.append(("paths", f"update_PERT_data on a chain of {n} tasks forks on the values left by an earlier call (more than 400 paths): its result depends on them"))
+            continue
+        ctx.require(res, "no path through update_PERT_data on a chain")
+        insts.append((f"chain{n}-arbitrary-prior", len(res)))
+        seen = {k for k, _ in bad}
+        for st, tname, rname in res:
+            for t in tasks:
+                for a in ("est", "eft", "lst", "lft"):
+                    got = st.heap.get((t.name, a))
+                    if "old_" in repr(got) and a not in seen:
+                        seen.add(a)
+                        bad.append((a, f"update_PERT_data: with an arbitrary previous value, {t.name}.{a} ends as `{got!r}` on some path: `{a}` is compared with / relaxed against the "
+                                       f"value of the previous call instead of being re-initialised, so e.g. a critical path that grew is never propagated (negative slack)"))
+            cpl = st.heap.get(("self", "critical_path_length"))
+            if "old_" in repr(cpl) and "critical_path_length" not in seen:
+                seen.add("critical_path_length")
+                bad.append(("critical_path_length", f"critical_path_length ends as `{cpl!r}`: it depends on the value of the previous call"))
+    return f, insts, bad
 
 
 def r12_1(ctx):
-    ctx.begin("R12.1", "relaxation accumulators are re-initialised for every task in every call", floor=2)
-    for g, attr, loc, ok, msg in stale_accumulators(ctx):
-        ctx.instance(construct(g, f"accumulator:{attr}"), sample={"attr": attr, "initialised_per_call": ok})
-        if not ok:
-            ctx.violation(construct(g, f"stale-accumulator:{attr}"), loc, msg)
+    ctx.begin("R12.1", "PERT values do not depend on what an earlier update left behind (symbolic prior values)", floor=2)
+    f, insts, bad = prior_dependence(ctx)
+    for name, cells in insts:
+        ctx.instance(construct(f, name), cells=cells)
+    for key, msg in bad:
+        ctx.violation(construct(f, f"stale-accumulator:{key}"), f.loc(), msg)
     ctx.end()
 
 
-def chain_run(ctx, n, two_calls):
+def chain_run(ctx, n, two_calls, symbolic_prior=False):
     """Interpret update_PERT_data on an FS chain T0 -> T1 -> ... with symbolic remaining work."""
     f = ctx.repo.method(WORKFLOW, "update_PERT_data")
     tasks = [Obj(f"T{i}", TASK) for i in range(n)]
@@ -96,10 +82,13 @@ def chain_run(ctx, n, two_calls):
         st.heap[(t.name, "input_task_list")] = ListV([ListV([tasks[i - 1], E(DEP, "FS")], True, "list")] if i > 0 else [])
         st.heap[(t.name, "output_task_list")] = ListV([ListV([tasks[i + 1], E(DEP, "FS")], True, "list")] if i + 1 < n else [])
         for a, v in (("est", 0), ("eft", 0), ("lst", -1), ("lft", -1)):
-            st.heap[(t.name, a)] = Poly.const(v)
+            st.heap[(t.name, a)] = Poly.sym(f"old_{a}_{i}") if symbolic_prior else Poly.const(v)
+    if symbolic_prior:
+        st.heap[("self", "critical_path_length")] = Poly.sym("old_cpl")
     st.bounds["t"] = (0, None)
     st.bounds["u"] = (0, None)
-    I = mk_interp(ctx, inline=lambda call, callee, depth: callee.cls == WORKFLOW, collections={"self.task_list": tasks}, max_depth=3, unroll_while=n + 3)
+    I = mk_interp(ctx, inline=lambda call, callee, depth: callee.cls == WORKFLOW, collections={"self.task_list": tasks}, max_depth=3, unroll_while=n + 3,
+                  max_paths=400 if symbolic_prior else 3000)
     outs = I.run_function(f, bind={"time": Poly.sym("t")}, st=st)
     if not two_calls:
         return tasks, [(s1, "t", "r") for s1, ex in outs]
